@@ -240,6 +240,7 @@ func TestNamedEnum(t *testing.T) {
 		{Kind: ref.KFalse, Tok: "false"}, {Kind: ref.KString, Tok: `""`, Str: ""}, {Kind: ref.KString, Tok: `"a b"`, Str: "a b"}, {Kind: ref.KNumber, Tok: "100"},
 		{Kind: ref.KString, Tok: `"é"`, Str: "é"}, {Kind: ref.KString, Tok: `"\n"`, Str: "\n"}, {Kind: ref.KNumber, Tok: "0.25"}, {Kind: ref.KString, Tok: `"//x"`, Str: "//x"},
 		{Kind: ref.KString, Tok: `"a,b]"`, Str: "a,b]"}, {Kind: ref.KString, Tok: `"q\"r"`, Str: `q"r`},
+		{Kind: ref.KString, Tok: `"1.0"`, Str: "1.0"}, {Kind: ref.KString, Tok: `"1.5"`, Str: "1.5"}, {Kind: ref.KString, Tok: `"1.50"`, Str: "1.50"}, {Kind: ref.KString, Tok: `"0"`, Str: "0"}, {Kind: ref.KString, Tok: `"-0"`, Str: "-0"},
 		{Kind: ref.KNumber, Tok: "1.50"}, {Kind: ref.KNumber, Tok: "0"}, {Kind: ref.KNumber, Tok: "-0"}, {Kind: ref.KNumber, Tok: "0.250"}, {Kind: ref.KNumber, Tok: "-2.0"},
 	}
 	rapid.Check(t, func(t *rapid.T) {
